@@ -380,6 +380,120 @@ Fixpoint zip_slots (vals : list pv) (n : nat) : list (option pv) :=
   | Datatypes.S n' => match vals with v :: r => Some v :: zip_slots r n' | [] => None :: zip_slots [] n' end
   end.
 
+(* ---- list-shaped parts of the parsers, generic in the element loader `ld` ---- *)
+Section Parts.
+Variable ld : ty -> pv -> res pv.
+
+(* zip(elem_parsers, o) *)
+Fixpoint zip_load (ts : list ty) (xs : list pv) {struct ts} : res (list pv) :=
+  match ts, xs with
+  | t' :: ts', x :: xs' => bind (ld t' x) (fun y => rmap (cons y) (zip_load ts' xs'))
+  | _, _ => Ok []
+  end.
+
+Fixpoint zip_load_f (fts : list (ty * option pv)) (xs : list pv) {struct fts} : res (list pv) :=
+  match fts, xs with
+  | ft :: fts', x :: xs' => bind (ld (fst ft) x) (fun y => rmap (cons y) (zip_load_f fts' xs'))
+  | _, _ => Ok []
+  end.
+
+(* tag_to_parser[tag]: the last class registered under a tag wins *)
+Fixpoint tag_scan (j : pv) (tag : pstr) (l : list ty) {struct l} : option (res pv) :=
+  match l with
+  | [] => None
+  | t' :: r =>
+      match tag_scan j tag r with
+      | Some x => Some x
+      | None => match tag_of t' with
+                | Some tg => if pstr_eqb tg tag then Some (ld t' j) else None
+                | None => None
+                end
+      end
+  end.
+
+Definition tag_dispatch (j : pv) (ts : list ty) : res pv :=
+  match j with
+  | VDict _ _ kvs =>
+      match dict_get (VStr (l_tag_key cfg)) kvs with
+      | Some (VStr tag) => match tag_scan j tag ts with Some r => r | None => raise "ParseError" end
+      | Some tagv => if is_unhashable tagv then raise "TypeError" else raise "ParseError"
+      | None => raise "ParseError"
+      end
+  | VStr _ | VSeq _ _ _ | VNT _ _ | VBool _ | VInt _ | VFloat _ | VNone => raise "ParseError"
+  | _ => unmodelled "o[tag_key]"
+  end.
+
+(* for parser in self.parsers: if o in parser: return parser(o) *)
+Fixpoint union_scan (j : pv) (all : list ty) (l : list ty) {struct l} : res pv :=
+  match l with
+  | t' :: r =>
+      if is_parser_member t' then
+        bind (contains t' j) (fun b => if b then ld t' j else union_scan j all r)
+      else union_scan j all r
+  | [] => tag_dispatch j all
+  end.
+
+(* NamedTuple from a dict: keyword arguments, every key must name a field *)
+Fixpoint nt_loop (names : list pstr) (fts : list (ty * option pv))
+         (kvs : list (pv * pv)) (slots : list (option pv)) {struct kvs} : res (list (option pv)) :=
+  match kvs with
+  | [] => Ok slots
+  | (VStr key, x) :: r =>
+      match index_of (pstr_eqb key) names O with
+      | Some i =>
+          bind (apply_nth (fun ft => ld (fst ft) x) (unmodelled "namedtuple arity") fts i)
+               (fun v => nt_loop names fts r (set_nth i (Some v) slots))
+      | None => raise "KeyError"
+      end
+  | _ :: _ => raise "KeyError"
+  end.
+
+(* TypedDict: required keys must be present, optional keys are taken when present *)
+Fixpoint td_req (kvs : list (pv * pv)) (l : list (pstr * ty)) {struct l} : res (list (pv * pv)) :=
+  match l with
+  | [] => Ok []
+  | kt :: r =>
+      match dict_get (VStr (fst kt)) kvs with
+      | Some x => bind (ld (snd kt) x) (fun v => rmap (cons (VStr (fst kt), v)) (td_req kvs r))
+      | None => raise "ParseError"
+      end
+  end.
+Fixpoint td_opt (kvs : list (pv * pv)) (l : list (pstr * ty)) {struct l} : res (list (pv * pv)) :=
+  match l with
+  | [] => Ok []
+  | kt :: r =>
+      match dict_get (VStr (fst kt)) kvs with
+      | Some x => bind (ld (snd kt) x) (fun v => rmap (cons (VStr (fst kt), v)) (td_opt kvs r))
+      | None => td_opt kvs r
+      end
+  end.
+
+(* cls_fromdict: `for json_key in o` *)
+Fixpoint data_loop (c : cinfo) (fts : list (ty * option pv))
+         (kvs : list (pv * pv)) (slots : list (option pv)) {struct kvs} : res (list (option pv)) :=
+  match kvs with
+  | [] => Ok slots
+  | (VStr key, x) :: r =>
+      match resolve c key with
+      | KField i =>
+          bind (apply_nth (fun ft => ld (fst ft) x) (unmodelled "class arity") fts i)
+               (fun v => data_loop c fts r (set_nth i (Some v) slots))
+      | KIgnore => data_loop c fts r slots
+      end
+  | _ :: _ => raise "AttributeError"     (* to_snake_case(non-str key) *)
+  end.
+End Parts.
+
+Definition no_slots (fts : list (ty * option pv)) : list (option pv) := map (fun _ => None) fts.
+
+(* `for json_key in o` over a non-dict: a key that resolves makes o[json_key] fail, a non-str
+   element makes the key transform fail; otherwise every key is ignored *)
+Definition all_ignored (c : cinfo) (xs : list pv) : bool :=
+  forallb (fun x => match x with
+                    | VStr key => match resolve c key with KIgnore => true | KField _ => false end
+                    | _ => false
+                    end) xs.
+
 Fixpoint load (t : ty) (j : pv) {struct t} : res pv :=
   match t with
   | TAny | TNone => Ok j
@@ -401,14 +515,8 @@ Fixpoint load (t : ty) (j : pv) {struct t} : res pv :=
         bind (iter_of j) (fun xs =>
           let n := List.length xs in
           let req := List.length (filter (fun t' => negb (accepts_none t')) ts) in
-          if (Nat.leb req n && Nat.leb n (List.length ts))%bool then
-            rmap (VSeq STuple false)
-                 ((fix go (ts : list ty) (xs : list pv) {struct ts} : res (list pv) :=
-                     match ts, xs with
-                     | t' :: ts', x :: xs' =>
-                         bind (load t' x) (fun y => rmap (cons y) (go ts' xs'))
-                     | _, _ => Ok []
-                     end) ts xs)
+          if (Nat.leb req n && Nat.leb n (List.length ts))%bool
+          then rmap (VSeq STuple false) (zip_load load ts xs)
           else raise "ParseError")
       end
   | TVarTuple t' =>
@@ -426,92 +534,24 @@ Fixpoint load (t : ty) (j : pv) {struct t} : res pv :=
   | TUnion ts =>
       match j with
       | VNone => Ok VNone
-      | _ =>
-        (fix scan (l : list ty) {struct l} : res pv :=
-           match l with
-           | t' :: r =>
-               if is_parser_member t' then
-                 bind (contains t' j) (fun b => if b then load t' j else scan r)
-               else scan r
-           | [] =>
-               (* tag dispatch: tag_to_parser[o[tag_key]] ; the last class registered under a tag wins *)
-               match j with
-               | VDict _ _ kvs =>
-                   match dict_get (VStr (l_tag_key cfg)) kvs with
-                   | Some (VStr tag) =>
-                       match (fix tagscan (l : list ty) {struct l} : option (res pv) :=
-                                match l with
-                                | [] => None
-                                | t' :: r =>
-                                    match tagscan r with
-                                    | Some x => Some x
-                                    | None => match tag_of t' with
-                                              | Some tg => if pstr_eqb tg tag then Some (load t' j) else None
-                                              | None => None
-                                              end
-                                    end
-                                end) ts with
-                       | Some r => r
-                       | None => raise "ParseError"
-                       end
-                   | Some tagv => if is_unhashable tagv then raise "TypeError" else raise "ParseError"
-                   | None => raise "ParseError"
-                   end
-               | VStr _ | VSeq _ _ _ | VNT _ _ | VBool _ | VInt _ | VFloat _ | VNone => raise "ParseError"
-               | _ => unmodelled "o[tag_key]"
-               end
-           end) ts
+      | _ => union_scan load j ts ts
       end
   | TLiteral vs => load_literal vs j
   | TNamedTuple n fts =>
       match j with
       | VDict _ _ kvs =>
-          (* base_type of {k: field_to_parser[k](o[k]) for k in o} as keyword arguments *)
-          bind ((fix loop (kvs : list (pv * pv)) (slots : list (option pv)) {struct kvs} : res (list (option pv)) :=
-                   match kvs with
-                   | [] => Ok slots
-                   | (VStr key, x) :: r =>
-                       match index_of (pstr_eqb key) (n_fields n) O with
-                       | Some i =>
-                           bind (apply_nth (fun ft => load (fst ft) x) (unmodelled "namedtuple arity") fts i)
-                                (fun v => loop r (set_nth i (Some v) slots))
-                       | None => raise "KeyError"
-                       end
-                   | _ :: _ => raise "KeyError"
-                   end) kvs (map (fun _ => None) fts))
+          bind (nt_loop load (n_fields n) fts kvs (no_slots fts))
                (fun slots => rmap (VNT n) (fill fts slots))
       | _ =>
           bind (iter_of j) (fun xs =>
-          bind ((fix go (fts : list (ty * option pv)) (xs : list pv) {struct fts} : res (list pv) :=
-                   match fts, xs with
-                   | ft :: fts', x :: xs' => bind (load (fst ft) x) (fun y => rmap (cons y) (go fts' xs'))
-                   | _, _ => Ok []
-                   end) fts xs)
+          bind (zip_load_f load fts xs)
                (fun vals => rmap (VNT n) (fill fts (zip_slots vals (List.length fts)))))
       end
   | TTypedDict tid req opt =>
       match j with
       | VDict _ _ kvs =>
-          bind ((fix goreq (l : list (pstr * ty)) {struct l} : res (list (pv * pv)) :=
-                   match l with
-                   | [] => Ok []
-                   | kt :: r =>
-                       match dict_get (VStr (fst kt)) kvs with
-                       | Some x => bind (load (snd kt) x) (fun v => rmap (cons (VStr (fst kt), v)) (goreq r))
-                       | None => raise "ParseError"
-                       end
-                   end) req)
-               (fun p1 =>
-          bind ((fix goopt (l : list (pstr * ty)) {struct l} : res (list (pv * pv)) :=
-                   match l with
-                   | [] => Ok []
-                   | kt :: r =>
-                       match dict_get (VStr (fst kt)) kvs with
-                       | Some x => bind (load (snd kt) x) (fun v => rmap (cons (VStr (fst kt), v)) (goopt r))
-                       | None => goopt r
-                       end
-                   end) opt)
-               (fun p2 => Ok (VDict DDict false (p1 ++ p2))))
+          bind (td_req load kvs req) (fun p1 =>
+          bind (td_opt load kvs opt) (fun p2 => Ok (VDict DDict false (p1 ++ p2))))
       | _ =>
           match req, opt with
           | [], [] => Ok (VDict DDict false [])
@@ -520,33 +560,14 @@ Fixpoint load (t : ty) (j : pv) {struct t} : res pv :=
           end
       end
   | TData c fts =>
-      let names := map f_name (c_fields c) in
-      let finish (slots : list (option pv)) := rmap (VInst c) (fill fts slots) in
-      let empty := map (fun _ : ty * option pv => @None pv) fts in
       match j with
       | VNone => raise "MissingData"
       | VDict _ _ kvs =>
-          bind ((fix loop (kvs : list (pv * pv)) (slots : list (option pv)) {struct kvs} : res (list (option pv)) :=
-                   match kvs with
-                   | [] => Ok slots
-                   | (VStr key, x) :: r =>
-                       match resolve c key with
-                       | KField i =>
-                           bind (apply_nth (fun ft => load (fst ft) x) (unmodelled "class arity") fts i)
-                                (fun v => loop r (set_nth i (Some v) slots))
-                       | KIgnore => loop r slots
-                       end
-                   | _ :: _ => raise "AttributeError"     (* to_snake_case(non-str key) *)
-                   end) kvs empty) finish
+          bind (data_loop load c fts kvs (no_slots fts))
+               (fun slots => rmap (VInst c) (fill fts slots))
       | VStr _ | VSeq _ _ _ | VNT _ _ =>
-          (* `for json_key in o` over a non-dict: a key that resolves makes o[json_key] fail,
-             a non-str element makes the key transform fail; otherwise every key is ignored *)
           bind (iter_of j) (fun xs =>
-            if forallb (fun x => match x with
-                                 | VStr key => match resolve c key with KIgnore => true | KField _ => false end
-                                 | _ => false
-                                 end) xs
-            then finish empty else raise "ParseError")
+            if all_ignored c xs then rmap (VInst c) (fill fts (no_slots fts)) else raise "ParseError")
       | VBool _ | VInt _ | VFloat _ => raise "ParseError"
       | _ => unmodelled "cls_fromdict input"
       end
